@@ -731,3 +731,68 @@ class ObjBlockDiagonalizeFock(Contract):
         else:
             out.append(("everything-else-is-untouched", obj is me["sympy"]))
         return out
+
+
+# --- Obj.use_explicit_denominators: D^{upper}_{lower}^n = (sum_upper e - sum_lower e)^(-n) -----------------
+EORB = z3.Function("orbital_energy", z3.DeclareSort("IdxTokS"), z3.RealSort())
+IdxTokS = EORB.domain(0)
+
+
+@register
+class ObjUseExplicitDenominators(Contract):
+    key = "adcgen.expr_container:Obj.use_explicit_denominators"
+    props = ["C13"]
+
+    def setup(self, vc):
+        from spec.exprval import mk_expr, POW
+        C.EXTERNALS["adcgen.tensor_names:tensor_names"] = Struct("TensorNames", sym_orb_denom="D", orb_energy="e")
+        is_d = vc.choose(2, "is_symbolic_denominator") == 1
+        nu, nl = 1 + vc.choose(2, "n_upper"), 1 + vc.choose(2, "n_lower")
+        up = tuple(Sym(vc.fresh(f"upper{k}", IdxTokS)) for k in range(nu))
+        lo = tuple(Sym(vc.fresh(f"lower{k}", IdxTokS)) for k in range(nl))
+        expo = Sym(vc.fresh_int("exponent"))
+        listed = vc.choose(2, "listed_in_antisym_tensors") == 1
+        tensor = Struct("DTensor", upper=up, lower=lo)
+        C.STRUCT_ATTR[("DTensor", "upper")] = lambda ip, o: o.f["upper"]
+        C.STRUCT_ATTR[("DTensor", "lower")] = lambda ip, o: o.f["lower"]
+        me = Struct("DObj", name="D" if is_d else "X", tensor=tensor, exponent=expo, sympy=Struct("ObjSympy"),
+                    anti=("D", "x") if listed else ("x",))
+        C.STRUCT_ATTR[("DObj", "name")] = lambda ip, o: o.f["name"]
+        C.STRUCT_ATTR[("DObj", "sympy")] = lambda ip, o: o.f["sympy"]
+        C.STRUCT_ATTR[("DObj", "base_and_exponent")] = lambda ip, o: (o.f["tensor"], o.f["exponent"])
+        C.STRUCT_ATTR[("DObj", "antisym_tensors")] = lambda ip, o: o.f["anti"]
+        C.STRUCT_ATTR[("DObj", "assumptions")] = lambda ip, o: PDict({"real": True, "antisym_tensors": o.f["anti"]})
+
+        def nonsym(ip, a, k):
+            ok = a[0] == "e" and isinstance(a[1], tuple) and len(a[1]) == 1
+            if not ok:
+                raise Unsupported("NonSymmetricTensor other than an orbital energy")
+            return mk_expr(EORB(a[1][0].t), False)
+        C.CLASS_MODELS["adcgen.sympy_objects:NonSymmetricTensor"] = nonsym
+
+        def pow_(ip, a, k):
+            from spec.exprval import as_expr
+            return mk_expr(POW(as_expr(a[0]).f["val"], term(a[1])), False)
+        C.EXTERNALS["sympy.Pow"] = pow_
+        C.CLASS_MODELS["adcgen.expr_container:Expr"] = lambda ip, a, k: Struct("ExprV", of=a[0], kw=dict(k))
+        vc.ghost["_d"] = (is_d, up, lo, expo, listed)
+        return {"self": me, "return_sympy": vc.choose(2, "return_sympy") == 1}
+
+    def post(self, vc, a, result):
+        from spec.exprval import as_expr, POW
+        is_d, up, lo, expo, listed = vc.ghost["_d"]
+        me = a["self"].f
+        out = []
+        obj = result
+        if not a["return_sympy"]:
+            w = isinstance(result, Struct) and result.cls == "ExprV" and result.f["kw"].get("real") is True \
+                and set(result.f["kw"]) == {"real", "antisym_tensors"} \
+                and tuple(result.f["kw"]["antisym_tensors"]) == ("x",)
+            out.append(("an-expression-with-the-assumptions-minus-the-symbolic-denominator-is-returned", w))
+            obj = result.f["of"] if w else None
+        if not is_d:
+            return out + [("other-objects-are-untouched", obj is me["sympy"])]
+        ok = isinstance(obj, Struct) and obj.cls == "Expr"
+        den = z3.Sum([EORB(s.t) for s in up]) - z3.Sum([EORB(s.t) for s in lo])
+        return out + [("the-symbolic-denominator-becomes-(sum-of-upper-minus-sum-of-lower-orbital-energies)^(-exponent)",
+                       as_expr(obj).f["val"] == POW(den, -term(expo)) if ok else False)]
